@@ -213,8 +213,15 @@ theorem apiStep_gone {o : Nat} {s : Sess} (a : Api) (h : Gone o s) : GoneRel o s
     · exact GoneRel.refl h
     · split
       · exact GoneRel.refl h
-      · exact ⟨h.of (fun _ => Nat.le_refl _) (List.Sublist.refl _) (Nat.le_refl _) (fun y hy => Or.inl hy),
-          NoInv.of_not_invoke (by simp [isInvoke])⟩
+      · split
+        · exact out_gone h (by simp [isInvoke])
+        · exact ⟨h.of (fun _ => Nat.le_refl _) (List.Sublist.refl _) (Nat.le_refl _) (fun y hy => Or.inl hy),
+            NoInv.of_not_invoke (by simp [isInvoke])⟩
+  | disconnect =>
+    simp only [apiStep, apiDisconnect]
+    split
+    · exact out_gone h (by simp [isInvoke])
+    · exact GoneRel.refl h
 
 theorem mem_objsOf {subs : List (SubId × List SubRec)} {sub : SubId} {l : List SubRec} {r : SubRec}
     (h : alookup sub subs = some l) (hr : r ∈ l) : r.obj ∈ objsOf subs := by
@@ -229,7 +236,7 @@ theorem goneLift (o : Nat) : Lift (GoneRel o) (Gone o) where
   api := fun a h => apiStep_gone a h
   userError := fun h => emitCb_gone h rfl
   invoke := by
-    intro s sub idx r args kw h hr
+    intro s sub r args kw h hr
     refine ⟨h, ?_⟩
     intro x hx
     simp only [List.mem_singleton] at hx
@@ -239,10 +246,11 @@ theorem goneLift (o : Nat) : Lift (GoneRel o) (Gone o) where
     cases hl : alookup sub s.subs with
     | none => simp [hl] at hr
     | some l =>
-      simp only [hl, Option.bind_some] at hr
-      have hm : r.obj ∈ objsOf s.subs := mem_objsOf hl (List.mem_of_getElem? hr)
+      simp only [hl, Option.getD_some, List.any_eq_true, beq_iff_eq] at hr
+      obtain ⟨r', hr', e'⟩ := hr
+      have hm : r'.obj ∈ objsOf s.subs := mem_objsOf hl hr'
       have := List.count_pos_iff.mpr hm
-      rw [e, h.objs] at this
+      rw [e', e, h.objs] at this
       exact absurd this (by decide)
 
 
@@ -251,16 +259,33 @@ theorem rejectList_gone {o : Nat} {s : Sess} (h : Gone o s) (v : Outcome) (fs : 
   rejectList_lift (R := GoneRel o) (P := Gone o) GoneRel.refl GoneRel.trans (fun _ r => r.1)
     (fun f v h _ => settle_gone h f v) h v fs
 
-theorem onLeaveDefault_gone {o : Nat} {s : Sess} (h : Gone o s) (reason : Nat) :
-    GoneRel o s (onLeaveDefault s reason).2 (onLeaveDefault s reason).1 := by
-  unfold onLeaveDefault
-  have hc : Gone o s.clearTables :=
-    h.of (fun _ => Nat.le_refl _) (List.nil_sublist _) (Nat.le_refl _) (fun x hx => Or.inl hx)
-  have h1 := rejectList_gone hc (.closed reason) s.outstanding
-  simp only []
-  split
-  · exact GoneRel.trans h1 (emitCb_gone h1.1 rfl)
-  · exact h1
+theorem NoInv.map_toLost {o : Nat} {a : List SOut} (ha : NoInv o a) : NoInv o (a.map toLost) := by
+  intro x hx
+  obtain ⟨y, hy, rfl⟩ := List.mem_map.mp hx
+  have := ha y hy
+  cases y <;> simp_all [toLost, invokesObj]
+
+theorem goneLiftX (o : Nat) : LiftX (GoneRel o) (Gone o) (fun x => !isInvoke x) where
+  toLift := goneLift o
+  okOf := by intro x hx; cases x <;> simp [lcOut, isInvoke] at hx ⊢
+  lc := fun {s s'} h hc => by
+    obtain ⟨_, _, e3, e4, e5⟩ := core_fields hc
+    exact ⟨h.of (fun _ => by rw [e3]; exact Nat.le_refl _) (by rw [core_tbl hc]; exact List.Sublist.refl _)
+      (by rw [e4]; exact Nat.le_refl _) (fun x hx => Or.inl (e5 ▸ hx)), NoInv.nil o⟩
+  out := fun h ho => out_gone h (fun x hx => by simpa using ho x hx)
+  emit := fun h ho => emitCb_gone h (by simpa using ho)
+  enq := fun k h =>
+    ⟨h.of (fun _ => Nat.le_refl _) (List.Sublist.refl _) (Nat.le_refl _) (fun x hx => by
+      rcases List.mem_append.mp hx with hx | hx
+      · exact Or.inl hx
+      · simp at hx; subst hx; exact Or.inr rfl), NoInv.nil o⟩
+  lostMap := fun r => ⟨r.1, r.2.map_toLost⟩
+  cbqOk := fun h x hx => by simpa using h.cbq x hx
+  clearQ := fun h =>
+    ⟨h.of (fun _ => Nat.le_refl _) (List.Sublist.refl _) (Nat.le_refl _) (fun x hx => by simp at hx), NoInv.nil o⟩
+  rejectAll := fun {s} v h =>
+    rejectList_gone (s := s.clearTables)
+      (h.of (fun _ => Nat.le_refl _) (List.nil_sublist _) (Nat.le_refl _) (fun x hx => Or.inl hx)) v s.outstanding
 
 theorem pop_gone {o : Nat} {s : Sess} (h : Gone o s) (kind : Kind) (id : ReqId) :
     Gone o (s.setTbl kind (adel id (s.tbl kind))) := by
@@ -292,16 +317,14 @@ theorem onEstablished_gone {o : Nat} {s : Sess} (h : Gone o s) (beh : List HAct)
   cases m with
   | goodbye =>
     simp only [onEstablished]
-    have h0 : Gone o { s with sessionId := none } :=
-      h.of (fun _ => Nat.le_refl _) (List.Sublist.refl _) (Nat.le_refl _) (fun x hx => Or.inl hx)
-    have h1 := onLeaveDefault_gone h0 0
-    refine ⟨h1.1, NoInv.append ?_ h1.2⟩
-    split <;> exact NoInv.of_not_invoke (by simp [isInvoke])
+    split
+    · exact out_gone h (by simp [isInvoke])
+    · exact (goneLiftX o).goodbye h _
   | event sub pub p =>
     simp only [onEstablished]
     split
     · exact out_gone h (by simp [isInvoke])
-    · exact (goneLift o).dispatch _ h _ _ _ _ _
+    · exact (goneLift o).dispatch h _ _ _ _ _
   | published id pub =>
     simp only [onEstablished]
     exact popReply_gone h _ _ _ (fun s1 r h1 _ => settle_gone h1 _ _)
@@ -332,14 +355,8 @@ theorem onEstablished_gone {o : Nat} {s : Sess} (h : Gone o s) (beh : List HAct)
     · exact out_gone h (by simp [isInvoke])
     · split
       · split
-        · exact out_gone h (by simp [isInvoke])
-        · split
-          · exact GoneRel.refl h
-          · split
-            · split
-              · exact GoneRel.trans (out_gone h (os := [_]) (by simp [isInvoke])) ((goneLift o).runAct h none _)
-              · exact out_gone h (by simp [isInvoke])
-            · exact GoneRel.trans (out_gone h (os := [_]) (by simp [isInvoke])) ((goneLift o).runAct h none _)
+        · exact GoneRel.refl h
+        · exact GoneRel.trans (out_gone h (os := [_]) (by simp [isInvoke])) ((goneLift o).runAct h none _)
       · have h1 := pop_gone h .call id
         split
         · exact GoneRel.refl h1
@@ -371,44 +388,15 @@ theorem onEstablished_gone {o : Nat} {s : Sess} (h : Gone o s) (beh : List HAct)
         split
         · exact GoneRel.refl h1
         · exact settle_gone h1 _ _
-  | invocation id reg p =>
-    simp only [onEstablished]
-    split
-    · exact out_gone h (by simp [isInvoke])
-    · split <;> exact out_gone h (by simp [isInvoke])
-  | interrupt id => exact GoneRel.refl h
+  | invocation id reg p rp => exact (goneLiftX o).onInvocation h beh id reg p rp
+  | interrupt id => exact (goneLiftX o).settleInv h id _
   | welcome sid => exact out_gone h (by simp [onEstablished, isInvoke])
   | abort => exact out_gone h (by simp [onEstablished, isInvoke])
   | challenge => exact out_gone h (by simp [onEstablished, isInvoke])
   | other => exact out_gone h (by simp [onEstablished, isInvoke])
 
-theorem step_gone {o : Nat} {s : Sess} (e : SEv) (h : Gone o s) : GoneRel o s (step s e).2 (step s e).1 := by
-  cases e with
-  | api a => exact apiStep_gone a h
-  | msg m beh =>
-    simp only [step, onMessage]
-    split
-    · split
-      · exact ⟨h.of (fun _ => Nat.le_refl _) (List.Sublist.refl _) (Nat.le_refl _) (fun x hx => Or.inl hx), NoInv.nil o⟩
-      · exact out_gone h (by simp [isInvoke])
-      · exact out_gone h (by simp [isInvoke])
-      · exact out_gone h (by simp [isInvoke])
-    · exact onEstablished_gone h beh m
-  | pump =>
-    simp only [step]
-    exact ⟨h.of (fun _ => Nat.le_refl _) (List.Sublist.refl _) (Nat.le_refl _) (fun x hx => by simp at hx),
-      NoInv.of_not_invoke h.cbq⟩
-  | open_ =>
-    simp only [step]
-    exact emitCb_gone (s := { s with transport := true, goodbyeSent := false })
-      (h.of (fun _ => Nat.le_refl _) (List.Sublist.refl _) (Nat.le_refl _) (fun x hx => Or.inl hx)) rfl
-  | closed =>
-    simp only [step]
-    split
-    · exact onLeaveDefault_gone (s := { s with transport := false, sessionId := none })
-        (h.of (fun _ => Nat.le_refl _) (List.Sublist.refl _) (Nat.le_refl _) (fun x hx => Or.inl hx)) 1
-    · refine rejectList_gone (s := ({ s with transport := false } : Sess).clearTables) ?_ _ _
-      exact h.of (fun _ => Nat.le_refl _) (List.nil_sublist _) (Nat.le_refl _) (fun x hx => Or.inl hx)
+theorem step_gone {o : Nat} {s : Sess} (e : SEv) (h : Gone o s) : GoneRel o s (step s e).2 (step s e).1 :=
+  (goneLiftX o).step (fun beh m h => onEstablished_gone h beh m) h e
 
 /-- once gone, never invoked again — for every continuation of the history -/
 theorem run_gone {o : Nat} {s : Sess} (h : Gone o s) (hist : List SEv) : GoneRel o s (runOuts s hist) (runState s hist) :=
